@@ -16,6 +16,9 @@
 #include "ip_addr.h"
 #include "types.h"
 #include "policy.h"
+#include "routes.h"
+#include "ifstate.h"
+#include "failsafe.h"
 
 /* force complete layouts of every shared record */
 unsigned long __verif_sizes[] = {
@@ -27,4 +30,6 @@ unsigned long __verif_sizes[] = {
 	sizeof(struct calico_nat_affinity_key), sizeof(struct calico_nat_affinity_val),
 	sizeof(struct cali_maglev_key),
 	sizeof(struct ip_set_key), sizeof(struct event_header), sizeof(struct fwd),
+	sizeof(struct cali_rt_key), sizeof(struct cali_rt), sizeof(struct ifstate_val),
+	sizeof(struct failsafe_key), sizeof(struct arp_key), sizeof(struct arp_value),
 };
